@@ -13,7 +13,7 @@ open Dos Dos.Vss
 variable {F G : Type} [Field F] [AddCommGroup G] [Module F G] [DecidableEq F] [DecidableEq G]
 
 /-- member `j`'s genuine public-key message -/
-def Cfg.pkMsg (c : Cfg F G) (j : Nat) : PkMsg G := ⟨j, some ((c.longs.getD j 0) • c.g)⟩
+def Cfg.pkMsg (c : Cfg F G) (j : Nat) : PkMsg G := ⟨j, some ((c.longs.getD j 0) • c.g), j⟩
 
 theorem mapM_id_map_some {α : Type} (l : List α) : ((l.map some).mapM id : Option (List α)) = some l := by
   induction l with
@@ -21,31 +21,47 @@ theorem mapM_id_map_some {α : Type} (l : List α) : ((l.map some).mapM id : Opt
   | cons a l ih => simp [List.mapM_cons, ih]
 
 /-- `place` writes every key at its index -/
-theorem place_spec (n : Nat) (key : Nat → G) : ∀ (ms : List (PkMsg G)) (acc : List (Option G)),
-    acc.length = n → (∀ m ∈ ms, m.index < n ∧ m.key = some (key m.index)) → (ms.map (·.index)).Nodup →
+theorem place_spec (n : Nat) (key : Nat → G) (hinj : ∀ a b, a < n → b < n → key a = key b → a = b) :
+    ∀ (ms : List (PkMsg G)) (acc : List (Option G)),
+    acc.length = n → (∀ m ∈ ms, m.index < n ∧ m.key = some (key m.index) ∧ m.sender = m.index) → (ms.map (·.index)).Nodup →
     (∀ m ∈ ms, (acc[m.index]?).join = none) →
+    (∀ m ∈ ms, ∀ k : Nat, acc[k]? = some (some (key m.index)) → False) →
     ∃ acc', buildGen.place n ms acc = some acc' ∧ acc'.length = n ∧
       ∀ k, acc'[k]? = if k ∈ ms.map (·.index) then some (some (key k)) else acc[k]? := by
   intro ms
   induction ms with
-  | nil => intro acc hl _ _ _; exact ⟨acc, by simp [buildGen.place], hl, by simp⟩
+  | nil => intro acc hl _ _ _ _; exact ⟨acc, by simp [buildGen.place], hl, by simp⟩
   | cons m ms ih =>
-    intro acc hl hm hnd hfree
-    obtain ⟨hlt, hkey⟩ := hm m (by simp)
+    intro acc hl hm hnd hfree hfresh
+    obtain ⟨hlt, hkey, hsender⟩ := hm m (by simp)
     simp only [List.map_cons, List.nodup_cons] at hnd
     have hfm := hfree m (by simp)
+    have hnex : ∀ x ∈ ms, m.index ≠ x.index := by
+      intro x hx he; exact hnd.1 (by rw [he]; exact List.mem_map.2 ⟨x, hx, rfl⟩)
     obtain ⟨acc', h1, h2, h3⟩ := ih (acc.set m.index (some (key m.index))) (by simp [hl])
       (fun x hx => hm x (by simp [hx])) hnd.2 (by
         intro x hx
-        have hne : m.index ≠ x.index := by
-          intro he; exact hnd.1 (by rw [he]; exact List.mem_map.2 ⟨x, hx, rfl⟩)
-        rw [List.getElem?_set_ne hne]
-        exact hfree x (by simp [hx]))
+        rw [List.getElem?_set_ne (hnex x hx)]
+        exact hfree x (by simp [hx])) (by
+        intro x hx k hk
+        rw [List.getElem?_set] at hk
+        by_cases hmk : m.index = k
+        · simp only [hmk, if_true] at hk
+          rw [if_pos (by omega)] at hk
+          injection hk with hk; injection hk with hk
+          exact hnex x hx (hinj _ _ hlt (hm x (by simp [hx])).1 (by rw [hmk]; exact hk))
+        · simp only [hmk, if_false] at hk
+          exact hfresh x (by simp [hx]) k hk)
     refine ⟨acc', ?_, h2, ?_⟩
     · rw [buildGen.place]
       simp only [hkey]
       have : ¬ (m.index ≥ n) := by omega
-      simp only [this, if_false, hfm, Option.isSome_none, Bool.false_eq_true]
+      have hnc : acc.contains (some (key m.index)) = false := by
+        rcases hc : acc.contains (some (key m.index)) with _ | _
+        · rfl
+        · obtain ⟨k, hk⟩ := List.mem_iff_getElem?.1 (List.contains_iff_mem.1 hc)
+          exact absurd hk (fun h => hfresh m (by simp) k h)
+      simp only [this, if_false, hfm, Option.isSome_none, Bool.false_eq_true, hsender, ne_eq, not_true_eq_false, hnc]
       exact h1
     · intro k
       rw [h3 k]
@@ -64,12 +80,22 @@ theorem buildGen_genuine (c : Cfg F G) (ephs : List (List F)) (hw : WellFormed c
     (hnd : (batch.map (·.index)).Nodup) (hall : ∀ j, j < c.n → j ≠ i → j ∈ batch.map (·.index)) :
     ∃ d, buildGen c.g c.n (c.longs.getD i 0) (c.polys.getD i []) (c.pkMsg i) batch = some d ∧
       newGen c.g (c.longs.getD i 0) c.pubs (c.polys.getD i []) = .ok d := by
-  have hplace := place_spec c.n (fun j => (c.longs.getD j 0) • c.g) (c.pkMsg i :: batch) (List.replicate c.n none)
+  have hplace := place_spec c.n (fun j => (c.longs.getD j 0) • c.g) (by
+      intro a b ha hb' he
+      have h1 := c.pubs_get a ha
+      have h2 := c.pubs_get b hb'
+      have halt : a < c.pubs.length := by rw [c.pubs_length]; exact ha
+      have hblt : b < c.pubs.length := by rw [c.pubs_length]; exact hb'
+      rw [List.getElem?_eq_getElem halt] at h1
+      rw [List.getElem?_eq_getElem hblt] at h2
+      injection h1 with e1; injection h2 with e2
+      exact hw.nodup.getElem_inj_iff.1 (by rw [e1, e2]; exact he))
+    (c.pkMsg i :: batch) (List.replicate c.n none)
     (by simp) (by
       intro m hm
       rcases List.mem_cons.1 hm with hm | hm
-      · subst hm; exact ⟨hi, rfl⟩
-      · obtain ⟨h1, _, h3⟩ := hb m hm; exact ⟨h1, by rw [h3]; rfl⟩)
+      · subst hm; exact ⟨hi, rfl, rfl⟩
+      · obtain ⟨h1, _, h3⟩ := hb m hm; exact ⟨h1, by rw [h3]; rfl, by rw [h3]; rfl⟩)
     (by
       simp only [List.map_cons, List.nodup_cons]
       refine ⟨?_, hnd⟩
@@ -77,6 +103,7 @@ theorem buildGen_genuine (c : Cfg F G) (ephs : List (List F)) (hw : WellFormed c
       obtain ⟨x, hx, hxe⟩ := List.mem_map.1 hin
       exact (hb x hx).2.1 hxe)
     (by intro m _; by_cases h : m.index < c.n <;> simp [h])
+    (by intro m _ k hk; by_cases h : k < c.n <;> simp [h] at hk)
   obtain ⟨slots, hp, hlen, hget⟩ := hplace
   have hslots : slots = c.pubs.map some := by
     apply List.ext_getElem?
